@@ -1,5 +1,6 @@
 import PeptVerif.Lemmas.ConcreteEnv
 import PeptVerif.Lemmas.ConcreteBridge
+import PeptVerif.Lemmas.ConcreteLabel
 import PeptVerif.Props.C12
 /-!
 # C12 over the concrete tables of /repo
@@ -20,11 +21,17 @@ mass model of C02 (`Model/Mass.lean`):
 * `labels_resolve`, `label_shift_concrete` — the eight labels of the property parse to (element ↦ label), both masses are in
   the generated element table and the label is heavier; the label-shift theorem at the concrete environment.
 
-**No structural bridge for the label path**: `Model/CompCalc.lean` (C03) keys compositions by packed ASCII (`Nat`) and threads
-`Except` through every dictionary step, `Model/AbsMass.lean` keys them by text (the label parser needs the text) and is
-total; a bridge would be a second proof of C03's `mass_label_path` through an encoding of keys. The two models are instead
-tied (a) to the same Python by their own correspondence runs on the same kind of inputs and (b) to each other by the
-model-vs-model check of the harness (`c12.py`: `AbsMass` at the resolved environment against `mass` on labelled inputs).
+* `mass_bridge_label` — **bridge lemma (label path)**: for a plain labelled annotation (static rules written out, nothing
+  labile / unknown-position / interval / adduct — the working copies of `fragment` and the pieces of `condense_to_mass_mods`),
+  one label or a pair of labels of the property, known residues, modifications that resolve, any charge, both mass modes, the
+  composition path of the concrete model (`Mass.mass` → `CompCalc.compMass`, through C04's closed form
+  `Fragment.massOf_labelled`) and `AbsMass.massLabel` at the concrete environment return the same number. Method: relabelling a
+  dict with distinct keys is a change of the mass function (`labelEm` here, `Fragment.labelMu` there) and the two relabelled
+  mass functions correspond through the key packing (`labelEm_enc`); that the two label parsers agree through the packing
+  is a kernel check over the 8 + 64 label lists. Annotations with labile / unknown / interval modifications or adducts on the
+  label path are not bridged structurally (C04's closed form does not cover them); there the two models are tied by the
+  model-vs-model check of the harness (`c12.py: model_vs_model_mass`, drv_c02 against drv_c12 on the same resolved inputs)
+  and by their separate correspondence with the implementation.
 -/
 namespace Pept
 namespace C12Concrete
@@ -92,6 +99,18 @@ theorem label_shift_concrete (env : Pept.Env) (a c : Annotation) (ion : Key) (mo
   refine ⟨x, y, hx, hy, ?_⟩
   rw [hxy, C12.label_shift_single]
   rfl
+
+/-- **bridge lemma (label path)**, precursor ion, the property's labels (single or pair), plain annotation -/
+theorem mass_bridge_label (env : Pept.Env) (mono : Bool) (dl : Mod → Option ℚ) (cp : Mod → Chem.Comp)
+    (b : Annotation) (L : List Mod) (ch : Int) (hL : L ∈ labelLists) (hpl : Fragment.PlainL b L)
+    (hseq : CompCalc.KnownResidues b.seq)
+    (hmods : Fragment.ModsResolve env (Fragment.knownOf mono) dl cp) (hsm : ∀ m, dl m = none → SmallKeys (cp m)) :
+    ∃ X, Mass.mass env b { charge := some ch, mono := mono } = .ok X ∧
+      AbsMass.massLabel (envFor env Mass.ionP mono ch 0 0) b = .ok X :=
+  mass_bridge_label_precursor env mono dl cp b L ch hL hpl hseq hmods hsm
+
+/-- non-vacuity: `<13C><15N>PEP[1]` is a plain labelled annotation with a label pair of the property -/
+example : [(⟨.str ['1', '3', 'C'], 1⟩ : Mod), ⟨.str ['1', '5', 'N'], 1⟩] ∈ labelLists := by decide
 
 end C12Concrete
 end Pept
